@@ -2,6 +2,7 @@
 import Hb.Driver.Base
 import Hb.Model.Entry
 import Hb.Model.EntryPanic
+import Hb.Model.RawOther
 namespace Hb.Driver
 open Hb
 
@@ -114,6 +115,9 @@ def execEntryOp (st : DState) (env : Env) (name : String) (args : List String) (
     no <| resOut (Map.rawReplacePanic cfg env m (planHash st (nat! k)) (nat! k) w) (fun b => if b then "occ" else "vac") w
   | "try_insert", [k, kid, vid, v] =>
     no <| resOut (Map.tryInsert cfg env ⟨nat! k, nat! kid, nat! vid, nat! v⟩ w) (fmtEnt ids "ok" "err") w
+  | "raw_other", [mode, k, how, ks, kid, vid, v] =>
+    let m : Map.RawMode := if mode == "raw_from_key" then .fromKey else if mode == "raw_from_key_hashed" then .fromKeyHashed else .fromHash
+    ent (Map.rawEntryOther cfg env m (planHash st (nat! k)) (nat! k) (how == "or_insert") ⟨nat! ks, nat! kid, nat! vid, nat! v⟩ w)
   | "raw_from_key", k :: chain =>
     match parseRawChain chain with
     | some c => ent (Map.rawEntry cfg env .fromKey (planHash st (nat! k)) (nat! k) c w)
